@@ -205,6 +205,10 @@ theorem decls_eq (b : Backend) (api : Api) (o : Options) :
 /-- `swift_types` has no input on which the model stops -/
 theorem swiftTypes_total (api : Api) (o : Options) : decls .swiftTypes api o = .ok (swiftTypesDecls api) := rfl
 
+/-- neither has `swift_types --objc` (it had one, D18, until `ObjcTypes.jinja` read the value type of a map) -/
+theorem swiftTypesObjc_total (api : Api) (o : Options) :
+    decls .swiftTypesObjc api o = .ok (swiftTypesObjcDecls api) := rfl
+
 /-! ## Non-vacuity: a sample API on which the hypotheses hold and the conclusions say something -/
 
 /-- two namespaces; inheritance with enumerated subtypes, a cross-namespace reference, a nullable list, a map, a
@@ -294,8 +298,9 @@ example : (ocType (.map (.prim "String") (.nullable (.user ⟨"files", "copy_ref
 
 /-! ## Where Python raises: explicit error results -/
 
-/-- D18: a `Map` field whose value type enumerates subtypes stops `swift_types --objc` (`ObjcTypes.jinja` reads
-`field.data_type.data_type` of a `Map`) -/
+/-- D18 (repaired): a `Map` field whose value type enumerates subtypes used to stop `swift_types --objc`
+(`ObjcTypes.jinja` read `field.data_type.data_type` of a `Map`); kept as a regression witness: it completes, and the
+wrapper of the holder names the wrapper of the value type -/
 def d18Api : Api :=
   { nss := [{ name := "files",
               types := [.struct { name := "Base", subtypes := some [("leaf", ⟨"files", "Leaf"⟩)] },
@@ -303,7 +308,9 @@ def d18Api : Api :=
                         .struct { name := "Holder",
                                   fields := [⟨"by_name", .map (.prim "String") (.user ⟨"files", "Base"⟩), false, none⟩] }] }] }
 
-example : (crash .swiftTypesObjc d18Api sampleOpts).isSome = true := by decide +kernel
+example : crash .swiftTypesObjc d18Api sampleOpts = none := by decide +kernel
+example : ((swiftTypesObjcDecls d18Api).filter fun d => d.name == "DBXFilesHolder").map (fun d => d.refs.map TRef.text) =
+    [["Files.Holder", "DBXFilesBase", "DBXFilesBase"]] := by decide +kernel
 example : crash .swiftTypes d18Api sampleOpts = none := by decide +kernel
 example : ApiWF d18Api := by decide +kernel
 
